@@ -295,6 +295,9 @@ class Responder:
             return "bot answer other %s" % (tok or "x").strip("#")
         tail = (self.spec.get("llm_tail") or {}).get(tok or "", "")  # what a chatty LLM adds after the closing quote
         if task == "generate_bot_message":
+            if self.spec.get("mode") == "passthrough_dialog":
+                # passthrough: the LLM is prompted with the user's own text and its answer is used as it is (no quoting convention)
+                return self.llm_text(tok, "m")
             if self.spec.get("verbose_bot_message"):
                 # the format the default prompt of this task asks for (output parser verbose_v1); generation.py configures
                 # the streaming handler with the matching pattern  prefix='Bot message: "'  suffix='"'
